@@ -465,7 +465,8 @@ def rule_partial(rep: Report, rid="C01.partial") -> None:
     tree, rv, st = I.run(q)
     src = ("param", fi.params()[1])
     for n, ctx in nf.iter_nodes(tree):
-        if n[0] == "extcall" and n[1] in ("open", "os.open", "io.open", "os.stat", "os.listdir") and n[2] and n[2][0] == src:
+        nonraising = ("os.path.exists", "os.path.isfile", "os.path.isdir", "os.path.lexists", "io.StringIO")
+        if n[0] == "extcall" and (n[1] in ("open", "io.open") or n[1].startswith(("os.", "pathlib.", "shutil."))) and n[1] not in nonraising and n[2] and n[2][0] == src:
             rep.ob(rid + ".io", f"file-system call on the source text: {n[1]}({fi.params()[1]})", False, file=fi.file, line=n[3], function=q,
                    expected="source text is never used as a path", found=f"{n[1]}({fi.params()[1]}, ...) guarded by {[fmt(c, I) for c, p in nf.guards_in_ctx(ctx)]}")
     # parse hands its text to the scanner
